@@ -199,6 +199,13 @@ func c19Eval(t interface{ Fatalf(string, ...any) }, c c19.Case, ev *evid.Collect
 	})
 	if infra != nil {
 		evid.Flush(2)
+		if infra.Err == c19.ErrWatchdog {
+			// a stuck run leaves goroutines behind and shrinking it would take the
+			// watchdog time over and over: stop this shard (exit 2 = inconclusive)
+			b, _ := json.Marshal(c)
+			fmt.Fprintf(os.Stderr, "INCONCLUSIVE %v; case: %s\n", infra, b)
+			os.Exit(2)
+		}
 		t.Fatalf("INCONCLUSIVE harness failure (not a violation): %v", infra)
 	}
 	return v
